@@ -75,9 +75,6 @@ end
 
 end Expr
 
-/-- `if a is b or a._name == b._name` of the code: the negation is "the rule changed something" -/
-@[inline] def Expr.same (a b : Expr) : Bool := Expr.beq a b
-
 /-! ### The dependents map
 
   `collect_dependents(expr)` returns `defaultdict(list)`: name of a node ↦ list of weak references
